@@ -9,7 +9,8 @@ NEED_RELEASE = True
 COQ_TARGETS = ["Props/C03.vo", "Props/C03_fp.vo", "Props/C03_support.vo", "Props/C03_refuted.vo", "Props/C03_discrete.vo"]
 PROPS_FILES = ["C03", "C03_fp", "C03_support", "C03_refuted", "C03_discrete"]
 THEOREMS = ["C03_frechet_refuted", "C03_frechet_except_known", "C03_gumbel_refuted", "C03_gumbel_except_known", "C03_beta_in_unit", "C03_gamma_nonneg", "C03_fingerprints",
-            "C03_geometric_support", "C03_zeta_support", "C03_zipf_support", "C03_poisson_support", "C03_binv_support", "C03_std_geometric_support"]
+            "C03_geometric_support", "C03_zeta_support", "C03_zipf_support", "C03_poisson_support", "C03_binv_support", "C03_std_geometric_support",
+            "C03_btpe_support", "C03_binomial_support", "C03_h2pe_branch_support", "C03_hypergeometric_support"]
 TRUSTED_BASE = [
     "Coq 8.16.1 kernel; integer-exact support theorems (alias/tree indices: C08/C10) and ideal-real support theorems on the "
     "sampler models (Proofs/Support.v) — the models are tied to the code by C01's pathwise correspondence",
@@ -17,7 +18,9 @@ TRUSTED_BASE = [
     "correspondence runs against the crate) every returned value is in the support and the panic marker (failure code 3: u64 underflow, "
     "`1 << 64`, overflowing add, f64_to_u64 assertion, negative table index) is unreachable, for every word list and all valid parameters: "
     "StandardGeometric, Geometric (k <= 54, (d << k) + m fits), Zeta, Zipf (integer n, every s >= 0: result in [1, n]), Poisson (Knuth and "
-    "Ahrens-Dieter PD: step F's index >= 0), Binomial BINV (walk stops at x <= n, so n - sample cannot underflow); BTPE / HIN / H2PE: see the file",
+    "Ahrens-Dieter PD: step F's index >= 0), Binomial (constant, Poisson limit, BINV walk stops at x <= n, BTPE: both f64_to_u64 assertions, "
+    "the saturating cast and n - y of step 5.3, with and without the flip), Hypergeometric (HIN, H2PE region 1 inside [0, min(n1,k)] so the "
+    "u64 products of step 4.1 cannot underflow, all four reflections; N < 2^51)",
     "the IEEE-level part of this property (what a float program returns when a draw is exactly 0, 1/2 or its maximum) is decided by "
     "the DIRECT ORACLE on the real code, not by a theorem: support predicate + catch_unwind over the single-word-adversarial lattice "
     "(DESIGN.md App. D) x parameter points of envelope E, and the exhaustive sweep of all 2^24 high-bit patterns of one word for "
